@@ -103,6 +103,22 @@ func nodeCfg(svc string) string {
 	return dir
 }
 
+var (
+	enterTok = [2]string{"S", "X"}
+	callTok  = [2]string{"c", "d"}
+	panicTok = [2]string{"p", "q"}
+	finTok   = [2]string{"fs", "fx"}
+)
+
+func tf(b bool) string {
+	if b {
+		return "T"
+	}
+	return "F"
+}
+
+func (c *caseT) logf(f string, a ...interface{}) { c.log = append(c.log, fmt.Sprintf(f, a...)) }
+
 func (m *mod) Init(rs *runservice.StandardRunService) {}
 
 func (m *mod) run(ph int, next interfaces.FuncWithSucc) {
